@@ -10,6 +10,26 @@ mod runner;
 
 pub use runner::run_check;
 
+/// Verification hooks: public aliases of crate-private check internals so that the
+/// external correspondence harness can call the real functions in-process.
+#[cfg(feature = "verif")]
+pub mod verif_exports {
+    pub use super::check_args::{apply_cli_overrides, validate_and_resolve_paths};
+    pub use super::check_baseline_ops::{
+        RatchetResult, apply_baseline_comparison, check_baseline_ratchet, handle_baseline_ratchet,
+        is_structure_violation_result, load_baseline, load_baseline_optional,
+        parse_structure_violation_from_result, tighten_baseline, update_baseline_from_results,
+    };
+    pub use super::check_exit::determine_exit_code;
+    pub use super::check_git_diff::{DiffRange, filter_by_git_diff, parse_diff_range};
+    pub use super::check_output::{format_output, structure_violation_to_check_result};
+    pub use super::check_processing::{
+        CheckFileResult, compute_effective_stats, process_file_for_check,
+    };
+    pub use super::check_scan::{partition_file_results, scan_or_filter_files};
+    pub use super::runner::{CheckOptions, run_check_impl, run_check_with_context};
+}
+
 // Re-export internal items for tests
 #[cfg(test)]
 pub(crate) use check_args::{apply_cli_overrides, validate_and_resolve_paths};
